@@ -3,6 +3,7 @@ import NrDaemon.Model.Rules
 import NrDaemon.Props.Tied
 import NrDaemon.Model.Regex
 import NrDaemon.Lemmas.Regex
+import NrDaemon.Model.Proc
 /-!
   C07 — metric aggregation is order-independent and rename rules are applied faithfully.
 
@@ -375,3 +376,45 @@ after" (`replaceFirst`, `ReplaceAllString`) is well defined. -/
 theorem C07_rx_match_within_input (re : Re) (inp : Array Char) (from_ s e : Nat) (c : Caps)
     (h : re.find inp from_ = some (s, e, c)) : from_ ≤ s ∧ s ≤ e ∧ e ≤ inp.size :=
   Re.find_bounds re inp from_ s e c h
+
+/-- the contributions a transaction makes: every metric unscoped, and the scoped ones once more under the transaction's name -/
+def txnContribs (txnName : String) (ms : List TxnMetric) : List Contribution :=
+  ms.flatMap (fun x => ((x.name, ""), { forced := x.forced, d := x.d }) ::
+    (if x.isScoped then [((x.name, txnName), ({ forced := x.forced, d := x.d } : Metric))] else []))
+
+theorem mergeAdmitted_count_max (t : MTable) (k : MKey) (m : Metric) :
+    (t.mergeAdmitted k m).count ≤ t.count + 1 ∧ (t.mergeAdmitted k m).max = t.max := by
+  unfold MTable.mergeAdmitted
+  split <;> simp
+
+/-- **C07 (a scoped contribution is also recorded unscoped).**  What `aggregateMetrics` does with the metrics of a
+transaction (while there is room: refusals at the capacity limit aside) is exactly: admit every metric as an unscoped
+contribution and every scoped one once more under the transaction's name, in order — so `C07_table_value`,
+`C07_table_perm`, `C07_combine_regroup` apply to the tables transactions build, for every transaction name and metric
+list. -/
+theorem C07_scoped_also_unscoped (txnName : String) (ms : List TxnMetric) (t : MTable)
+    (hroom : t.count + 2 * ms.length ≤ t.max) :
+    ms.foldl (fun (m : MTable) (x : TxnMetric) =>
+      let m := m.addRaw (x.name, "") x.d x.forced
+      if x.isScoped then m.addRaw (x.name, txnName) x.d x.forced else m) t = applyAll t (txnContribs txnName ms) := by
+  induction ms generalizing t with
+  | nil => rfl
+  | cons x xs ih =>
+    simp only [List.foldl_cons, txnContribs, List.flatMap_cons, List.length_cons] at *
+    have h1 : t.addRaw (x.name, "") x.d x.forced = t.mergeAdmitted (x.name, "") { forced := x.forced, d := x.d } := by
+      unfold MTable.addRaw
+      exact mergeMetric_eq_admitted t _ _ (Or.inl (by omega))
+    obtain ⟨hc1, hm1⟩ := mergeAdmitted_count_max t (x.name, "") { forced := x.forced, d := x.d }
+    by_cases hs : x.isScoped = true
+    · simp only [hs, if_true]
+      have h2 : (t.mergeAdmitted (x.name, "") { forced := x.forced, d := x.d }).addRaw (x.name, txnName) x.d x.forced =
+          (t.mergeAdmitted (x.name, "") { forced := x.forced, d := x.d }).mergeAdmitted (x.name, txnName) { forced := x.forced, d := x.d } := by
+        unfold MTable.addRaw
+        exact mergeMetric_eq_admitted _ _ _ (Or.inl (by omega))
+      obtain ⟨hc2, hm2⟩ := mergeAdmitted_count_max (t.mergeAdmitted (x.name, "") { forced := x.forced, d := x.d }) (x.name, txnName) { forced := x.forced, d := x.d }
+      rw [h1, h2, ih _ (by omega)]
+      simp [applyAll]
+    · have hs' : x.isScoped = false := by simpa using hs
+      simp only [hs', Bool.false_eq_true, if_false]
+      rw [h1, ih _ (by omega)]
+      simp [applyAll]
